@@ -114,7 +114,7 @@ package piece
 //@   ensures  [complete] $r0 > 0 ==> InR(ps, int(off/int64(ps.pieceSize))) && ps.pieces[int(off/int64(ps.pieceSize))].state == 1 && Verified(ps, int(off/int64(ps.pieceSize)))
 //@   ensures  [bytes]    forall k int :: 0 <= k && k < $r0 ==> p[k] == ps.pieces[int(off/int64(ps.pieceSize))].data[int(off%int64(ps.pieceSize))+k]
 //@   ensures  [piece]    $r0 <= PL(ps, int(off/int64(ps.pieceSize))) - int(off%int64(ps.pieceSize)) || $r0 == 0
-//@   props    C01 C02 C16
+//@   props    C01 C02 C03 C16
 
 //@ func (*Piece).addPeer
 //@   requires p != nil
